@@ -246,6 +246,73 @@ func fetchHeader(w *bufio.Writer, r *rand.Rand) {
 	}
 }
 
+// varintInteriors returns, for a record set made of v2 batches, the offsets (relative to the set) that fall strictly inside a
+// multi-byte varint of a record: record length, timestamp / offset delta, key / value length, header count, header key / value
+// length.  A delivery cut at such an offset makes the Conn's bufio.Reader refill in the middle of the varint.
+func varintInteriors(set []byte) []int {
+	var out []int
+	pos := 0
+	for pos+61 <= len(set) {
+		if set[pos+16] != 2 {
+			return out // not a v2 batch
+		}
+		batchLen := int(binary.BigEndian.Uint32(set[pos+8:]))
+		end := pos + 12 + batchLen
+		if batchLen < 49 || end > len(set) {
+			return out
+		}
+		n := int(binary.BigEndian.Uint32(set[pos+57:]))
+		p := pos + 61
+		vi := func() (int64, bool) {
+			v, w := binary.Varint(set[p:end])
+			if w <= 0 {
+				return 0, false
+			}
+			for i := 1; i < w; i++ {
+				out = append(out, p+i)
+			}
+			p += w
+			return v, true
+		}
+		skip := func(l int64) bool {
+			if l > 0 {
+				p += int(l)
+			}
+			return p <= end
+		}
+		ok := true
+		for r := 0; r < n && ok && p < end; r++ {
+			if _, ok = vi(); !ok { // record length
+				break
+			}
+			p++ // attributes
+			for i := 0; i < 2 && ok; i++ { // timestamp delta, offset delta
+				_, ok = vi()
+			}
+			for i := 0; i < 2 && ok; i++ { // key, value
+				var l int64
+				if l, ok = vi(); ok {
+					ok = skip(l)
+				}
+			}
+			var hc int64
+			if ok {
+				hc, ok = vi()
+			}
+			for h := int64(0); h < hc && ok; h++ {
+				for i := 0; i < 2 && ok; i++ {
+					var l int64
+					if l, ok = vi(); ok {
+						ok = skip(l)
+					}
+				}
+			}
+		}
+		pos = end
+	}
+	return out
+}
+
 func respMode() {
 	r := gen.New()
 	w := bufio.NewWriter(os.Stdout)
@@ -322,10 +389,26 @@ func respMode() {
 				}
 				fmt.Fprintf(w, "connresp %s %d %d %d %s\t%s\n", op.Name, v, L, L, wd, ref)
 				ks := []int{}
+				// deterministic: every cut INSIDE a multi-byte varint of a v2 batch (between its bytes) is always taken
+				inside := map[int]bool{}
+				if op.Name == "fetch" {
+					for _, rel := range varintInteriors(sh.Set) {
+						inside[L-len(sh.Set)+rel] = true
+					}
+				}
 				for k := 1; k < L; k++ {
-					if gen.Thorough() || L <= 700 || k < 80 || k%3 == 0 {
+					if gen.Thorough() || L <= 700 || k < 80 || k%3 == 0 || inside[k] {
 						ks = append(ks, k)
 					}
+				}
+				nInside := 0
+				for _, k := range ks {
+					if inside[k] {
+						nInside++
+					}
+				}
+				if op.Name == "fetch" {
+					fmt.Fprintf(os.Stderr, "fetch v%d variant %d: %d cuts inside multi-byte varints\n", v, variant, nInside)
 				}
 				for _, k := range ks {
 					got := runSplit(op, v, body, sh, k)
